@@ -56,7 +56,7 @@ CiRules == ReleaseRules("ci.release") \cup
   R("ci.variant", "uid", "misaligned", "reject"),
   R("ci.variant", "name", "empty", "reject"), R("ci.variant", "name", "none", "reject"), R("ci.variant", "name", "int", "reject"),
   R("ci.variant", "type", "unknown", "reject"), R("ci.variant", "type", "upper", "reject"), R("ci.variant", "type", "none", "reject"),
-  R("ci.variant", "arches", "emptyset", "reject"), R("ci.variant", "arches", "none", "reject"), R("ci.variant", "arches", "str", "reject"),
+  R("ci.variant", "arches", "emptyset", "reject"), R("ci.variant", "arches", "none", "reject"), R("ci.variant", "arches", "str", "reject"), R("ci.variant", "arches", "archlist", "na"),
   R("ci.childvariant", "arches", "foreign", "reject"),
   \* an architecture the TOP-level ancestor has but the direct parent lacks (needs three levels)
   R("ci.grandchild", "arches", "foreign_ancestor", "reject"),
